@@ -236,6 +236,7 @@ func (w *Worker) runPath(prefix []Decision) {
 	r.bufBacking = map[*Value]*Backing{}
 	r.bufGen = map[*Value]*Backing{}
 	r.bufResetPending = map[*Value]bool{}
+	r.readerOrig = map[*Value]*Blob{}
 	r.pools = map[*Value]*PoolObj{}
 	r.atomicVals = map[*Value]*anyBox{}
 	r.syncMaps = map[*Value]*MapV{}
